@@ -8,7 +8,7 @@ cd "$(dirname "$0")/.."
 [ -n "$VP_RUN_REPO" ] || { echo "needs VP_RUN_REPO (use vp run --with-repo)"; exit 2; }
 export VERIF_REPO="$VP_RUN_REPO"
 export GOFLAGS=-mod=mod GOPROXY=off GOSUMDB=off GOTOOLCHAIN=local
-ids=$(python3 -c "import checks_config as c; print(' '.join(sorted(c.PROPS)))")
+ids=${BENIGN_IDS:-$(python3 -c "import checks_config as c; print(' '.join(sorted(c.PROPS)))")}  # BENIGN_IDS="C12 C13" restricts the checks run
 for d in seeded/benign/C*; do
   name=$(basename $d)
   # optional arguments: only the changes whose name matches one of the given shell patterns
